@@ -17,7 +17,20 @@ func init() {
 		eseqCheck(r, "C11", "cache", []string{"cache", "inv", "ret", "state", "events:cache.", "events:brk.", "events:rl.", "events:bh."})
 	})
 	register("C16", func(r *vk.Report) { eseqCheck(r, "C16", "events", []string{"events", "verdict"}) })
-	register("C17", func(r *vk.Report) { eseqCheck(r, "C17", "stats", []string{"stats"}) })
+	register("C17", func(r *vk.Report) {
+		eseqCheck(r, "C17", "stats", []string{"stats"})
+		// statistics identity when an execution is cancelled in a retry delay, a policy wait or inside the function
+		// (the cancellation scenarios of C08, judged here only on the done event's counters)
+		n := scale(r, 1500, 60000)
+		base := 10000000
+		vk.Parallel(n, 32, func(i int) {
+			if r.Skip(base + i) {
+				return
+			}
+			c08Scenario(r, base+i, "C17")
+		})
+		r.Rule += " Plus cancellation scenarios (context, deadline, Timeout, async Cancel landing in delays, waits, listeners and the function): the done event must satisfy Attempts == 1 + Retries + Hedges."
+	})
 }
 
 func facetLines(log []entry, facet string) []string {
